@@ -40,9 +40,9 @@ PR == SeqSet(R.recs)
 PP == SeqSet(R.provs)
 PD == SeqSet(R.provided)
 (* the projection is well-formed and becomes the new state *)
-Follow == /\ R.other = 0
-          /\ Len(R.recs) = Cardinality(PR) /\ Len(R.provs) = Cardinality(PP) /\ Len(R.provided) = Cardinality(PD)
+FollowB == /\ Len(R.recs) = Cardinality(PR) /\ Len(R.provs) = Cardinality(PP) /\ Len(R.provided) = Cardinality(PD)
           /\ recs' = PR /\ provs' = PP /\ provided' = PD /\ UNCHANGED cfg
+Follow == R.other = 0 /\ FollowB
 Past(eh, e) == eh = 1 /\ e < R.t0
 Ahead(eh, e) == eh = 0 \/ e > R.t1
 OfKey(S, k) == {x \in S : x[1] = k}
@@ -125,9 +125,22 @@ Laddp == /\ R.e = "laddp" /\ Follow /\ PR = recs /\ NoReply /\ NoReq
          /\ (IF R.res THEN Added(R.key, R.prov, R.rh, R.rexp, R.rexp) ELSE PP = provs) = TRUE
 Lremp == /\ R.e = "lremp" /\ Follow /\ PR = recs /\ NoReply /\ NoReq
          /\ PP = provs \ {p \in provs : p[1] = R.key /\ p[2] = R.prov}
+(* the application's own calls: put_record stores the record as given with the local node as publisher; remove_record
+   only removes records the local node published; start_providing stores the local node's provider record without
+   expiry; stop_providing removes it. (The queries they start are not followed here.) *)
+Bput == /\ R.e = "bput" /\ FollowB /\ PP = provs
+        /\ R.res = ~RefusePut(R.key, R.size)
+        /\ PR = IF R.res THEN (recs \ OfKey(recs, R.key)) \cup {<<R.key, IF R.size = 0 THEN 0 ELSE R.tag, R.size, 0, R.rh, R.rexp>>} ELSE recs
+Brem == /\ R.e = "brem" /\ FollowB /\ PP = provs
+        /\ PR = recs \ {r \in OfKey(recs, R.key) : r[4] = 0}
+Bprov == /\ R.e = "bprov" /\ FollowB /\ PR = recs
+         /\ R.res = ~AddErr(R.key)
+         /\ (IF R.res THEN Added(R.key, 0, 0, 0, 0) ELSE PP = provs) = TRUE
+Bstop == /\ R.e = "bstop" /\ FollowB /\ PR = recs
+         /\ PP = provs \ {p \in provs : p[1] = R.key /\ p[2] = 0}
 Skip == R.e = "skip" /\ UNCHANGED <<cfg, recs, provs, provided>>
 
-Next == l <= NRec /\ l' = l + 1 /\ (Reset \/ Put \/ Get \/ Getp \/ Addp \/ Lput \/ Lrem \/ Laddp \/ Lremp \/ Skip)
+Next == l <= NRec /\ l' = l + 1 /\ (Reset \/ Put \/ Get \/ Getp \/ Addp \/ Lput \/ Lrem \/ Laddp \/ Lremp \/ Bput \/ Brem \/ Bprov \/ Bstop \/ Skip)
 Spec == Init /\ [][Next]_vars
 (* ---- X06 invariants of the followed store ---- *)
 Bounds == /\ Cardinality(recs) <= cfg.maxrec /\ \A r \in recs : r[3] < cfg.maxval
